@@ -21,9 +21,11 @@ FAILED=$(grep -h "^test result" "$OUT.suite.log" | awk '{s+=$6} END {print s}')
 echo "suite_with_change rc=$RC2 passed=$PASSED failed=$FAILED" >> "$OUT"
 mv /tmp/_demo_$ID.rs "$DEMO"
 echo "== demo without change" >> "$OUT"
-git stash push -q -- src
+# (no git stash: the stash is shared by all worktrees of a repository)
+git diff -- src > "$W/out/_confirm_src.diff"
+git apply -R "$W/out/_confirm_src.diff"
 timeout 1200 cargo test --offline --test "$T" >> "$OUT.log2" 2>&1; RC3=$?
-git stash pop -q
+git apply "$W/out/_confirm_src.diff"
 echo "demo_without_change rc=$RC3" >> "$OUT"
 if [ $RC1 -ne 0 ] && [ $RC2 -eq 0 ] && [ "$FAILED" = "0" ] && [ $RC3 -eq 0 ]; then echo "CONFIRMED" >> "$OUT"; else echo "NOT-CONFIRMED" >> "$OUT"; fi
 tail -1 "$OUT"
